@@ -827,15 +827,11 @@ int _vnadata_load_npd(vnadata_internal_t *vdip, FILE *fp, const char *filename)
      */
     if (vnadata_init(vdp, best_type, best_drows, best_dcolumns,
 		frequencies) == -1) {
-	goto out;
-	_vnadata_error(vdip, VNAERR_SYSTEM,
-		"vnadata_init: %s", strerror(errno));
+	goto out;		/* vnadata_init has reported the error */
     }
     if (z0_vector != NULL) {
 	if (vnadata_set_z0_vector(vdp, z0_vector) == -1) {
-	    _vnadata_error(vdip, VNAERR_SYSTEM,
-		    "vnadata_set_z0_vector: %s", strerror(errno));
-	    goto out;
+	    goto out;		/* the error has been reported */
 	}
     } else if (fz0) {
 	if ((z0_vector = calloc(ports, sizeof(double complex))) == NULL) {
@@ -880,9 +876,7 @@ int _vnadata_load_npd(vnadata_internal_t *vdip, FILE *fp, const char *filename)
 	    goto out;
 	}
 	if (vnadata_set_frequency(vdp, findex, f) == -1) {
-	    _vnadata_error(vdip, VNAERR_SYSTEM,
-		    "vnadata_set_frequency: %s", strerror(errno));
-	    goto out;
+	    goto out;		/* the error has been reported */
 	}
 	if (fz0) {
 	    for (int port = 0; port < ports; ++port) {
@@ -905,9 +899,7 @@ int _vnadata_load_npd(vnadata_internal_t *vdip, FILE *fp, const char *filename)
 		z0_vector[port] = re + I * im;
 	    }
 	    if (vnadata_set_fz0_vector(vdp, findex, z0_vector) == -1) {
-		_vnadata_error(vdip, VNAERR_SYSTEM,
-			"vnadata_set_fz0_vector: %s", strerror(errno));
-		goto out;
+		goto out;	/* the error has been reported */
 	    }
 	}
 	for (int row = 0; row < best_drows; ++row) {
